@@ -1,24 +1,83 @@
 /-
   GM.Proof.ShiftSimXEnd6 — run A's line-boundary invariants (`AU`) survive a pass of the per-line loop and an
-  `openBlocks` at the top of the outer loop, for a `Plain6` source that ends with a line feed: `StableL` from the no-panic
+  `openBlocks` at the top of the outer loop, for a source of the positional class `PlainL` that ends with a line feed: `StableL` from the no-panic
   proof, `K` (GM.Proof.ShiftSimAcyc2), `TopLast` / attachment (GM.Proof.ShiftSimXTop7/8), `tl_GP` (ShiftSimXTop5), the
   statistics bound and "never `eof` while there is a line" (ShiftSimXNext).
 -/
 import GM.Proof.ShiftSimXEnd2
 import GM.Proof.ShiftSimXTop5
 import GM.Proof.ShiftSimXTop8
+import GM.Proof.ShiftSimXTop9
+import GM.Proof.ShiftSimXHcl2
+import GM.Proof.ShiftSimXSafe2
+import GM.Proof.ShiftSimXRi
 import GM.Proof.ShiftSimXNext
 
 namespace GM.Blocks.Xs
 open GM GM.Text GM.Spec GM.Proof.Reader GM.Blocks GM.Blocks.L
 
-theorem passKeeps (b : Bytes) (hnl : b.getLast? = some 10) (hpl : Plain6 b)
-    (hRIo : ∀ bp, Cov6 bp → ∀ p, Keeps (Sh.lb_RIs b) (bpOpen bp p))
-    (hRIc : ∀ bp, Cov6 bp → ∀ n, Keeps (Sh.lb_RIs b) (bpContinue bp n)) :
-    PassKeeps b := by
+/-! ### the reader invariant `HL` under the reader-only steps, and the trigger fact -/
+
+theorem hl_peek (b : Bytes) : ∀ (t : St) lp t1, HL b t → peekLine t = .ok (lp, t1) → HL b t1 := by
+  intro t lp t1 ⟨⟨c1, hc1, hlt⟩, c2, hc2, hts⟩ h
+  unfold GM.Blocks.peekLine at h
+  obtain ⟨r1, e1, h1⟩ := ri_peekLine hc1
+  obtain ⟨r2, e2, h2⟩ := ri_peekLine hc2
+  rw [e1] at h
+  simp only [bind, Except.bind, pure, Except.pure, Except.ok.injEq, Prod.mk.injEq] at h
+  obtain ⟨_, rfl⟩ := h
+  rw [e1] at e2
+  simp only [Except.ok.injEq, Prod.mk.injEq] at e2
+  obtain ⟨_, rfl⟩ := e2
+  exact ⟨⟨c1, h1, hlt⟩, c2, h2, hts⟩
+
+theorem hl_lineOffset (b : Bytes) : Keeps (HL b) lineOffset := by
+  intro t a t1 ⟨⟨c1, hc1, hlt⟩, c2, hc2, hts⟩ h
+  unfold GM.Blocks.lineOffset at h
+  obtain ⟨v1, r1, e1, h1, _⟩ := ri_lineOffset hc1
+  obtain ⟨v2, r2, e2, h2, _⟩ := ri_lineOffset hc2
+  rw [e1] at h
+  simp only [bind, Except.bind, pure, Except.pure, Except.ok.injEq, Prod.mk.injEq] at h
+  obtain ⟨_, rfl⟩ := h
+  rw [e1] at e2
+  simp only [Except.ok.injEq, Prod.mk.injEq] at e2
+  obtain ⟨_, rfl⟩ := e2
+  exact ⟨⟨c1, h1, hlt⟩, c2, h2, hts⟩
+
+theorem hl_trig (b : Bytes) (hpl : PlainL b) : ∀ (t t1 : St) (lp : Option Bytes × Segment) (l : Bytes) (lo : Int)
+    (ch : UInt8), HL b t → peekLine t = .ok (lp, t1) → lp.1 = some l → idx l (indentWidthI l lo).2 = .ok ch →
+    ∀ bp ∈ (triggered ch).getD freeParsers, Cov6 bp := by
+  intro t t1 lp l lo ch ⟨_, c, hc, hts⟩ h hl hidx
+  unfold GM.Blocks.peekLine at h
+  obtain ⟨r1, e1, h1⟩ := ri_peekLine hc
+  rw [e1] at h
+  simp only [bind, Except.bind, pure, Except.pure, Except.ok.injEq, Prod.mk.injEq] at h
+  obtain ⟨rfl, _⟩ := h
+  exact (trigAt_plainL b hpl).2 c l lo ch hc.inRange hts hl hidx
+
+theorem hl_open_go (b : Bytes) (hnl : b.getLast? = some 10) : ∀ bp, Cov6 bp → ∀ (p : Nat) (s : St)
+    (x : Option Nat × PState) (s' : St), HL b s → bpOpen bp p s = .ok (x, s') → (x.1 = none ∨ x.2.hasChildren = true) →
+    HL b s' := by
+  intro bp h p s x s' hl e hx
+  rcases hx with hx | hx
+  · have hri : ∃ c, RI b s'.r c := by
+      obtain ⟨c, hc, _⟩ := hl.1
+      exact ri_open6 b bp h p s x s' ⟨c, hc⟩ e
+    exact hl_of_pos hl hri (bpOpen_none_pos bp p s s' x e hx)
+  · exact strictO6' b hnl bp h p s s' x hl e hx
+
+theorem hl_continue_go (b : Bytes) (hnl : b.getLast? = some 10) : ∀ bp, Cov6 bp → ∀ (n : Nat) (s : St) (st : PState)
+    (s' : St), HL b s → bpContinue bp n s = .ok (st, s') → (st.cont = false ∨ st.hasChildren = true) → HL b s' := by
+  intro bp h n s st s' hl e hx
+  by_cases hc : st.cont = true
+  · rcases hx with hx | hx
+    · rw [hc] at hx; cases hx
+    · exact strictC6' b hnl bp h n s s' st hl e hc hx
+  · exact hcl6' b hnl bp h n s s' st hl e (by simpa using hc)
+
+theorem passKeeps (b : Bytes) (hnl : b.getLast? = some 10) (hpl : PlainL b) : PassKeeps b := by
   intro ob s s' bl x hau hop hne hcov hl hsle e
-  obtain ⟨c, hri, _⟩ := hl
-  have hl' : HasLine b s := ⟨c, hri, by assumption⟩
+  obtain ⟨c, hri, _⟩ := hl.1
   -- StableL
   have hst' : StableL b 0 s' := by
     have := lineLoopL (lsp_all b) 0 rfl ob ((ob.length : Int) - 1) rfl ob [] 0 bl s c
@@ -30,24 +89,25 @@ theorem passKeeps (b : Bytes) (hnl : b.getLast? = some 10) (hpl : Plain6 b)
     have hobs : Sh.ObsOK ob s := by
       intro z hz; exact hau.k.opened z (by rw [hop]; exact hz)
     exact (Sh.a2_lineLoop 0 ob ((ob.length : Int) - 1) ob 0 bl s s' x hau.k hau.k.doc.1 hobs (fun z hz => hz) e).1
-  -- the stack is not empty
   obtain ⟨b0, rest, rfl⟩ : ∃ b0 rest, ob = b0 :: rest := by
     cases ob with
     | nil => exact absurd rfl hne
     | cons b0 rest => exact ⟨b0, rest, rfl⟩
   have hatt : ∀ z ∈ b0 :: rest, (nd s z.node).parent.isSome = true := by
     intro z hz; exact hau.att z (by rw [hop]; exact hz)
-  have htop' := topLast_lineLoop6 b hpl hRIo hRIc b0 rest s s' bl x hau.k hau.top hop hcov ⟨c, hri⟩ hau.st hatt e
+  have hJr : ∀ t t' : St, HL b t → t'.r = t.r → HL b t' := fun t t' h e => h.of_r e
+  have htop' := topLast_lineLoopJ hJr (hl_open_go b hnl) (hl_lineOffset b) (hl_peek b) xk_free_cov6 (hl_trig b hpl)
+    (hl_continue_go b hnl) b0 rest s s' bl x hau.k hau.top hop hcov hl hau.st hatt e
+  have hatt' := att_lineLoopJ hJr (hl_open_go b hnl) (hl_lineOffset b) (hl_peek b) xk_free_cov6 (hl_trig b hpl)
+    (hl_continue_go b hnl) b0 rest s s' bl x hau.k hau.top hop hcov hl hau.st hatt e
   have hgp' := gp_lineLoop (b0 :: rest) s s' bl x hau.gp hau.k hau.st hop e
-  have hatt' := att_lineLoop6 b hpl hRIo hRIc b0 rest s s' bl x hau.k hau.top hop hcov ⟨c, hri⟩ hau.st hatt e
   obtain ⟨hnext, hsle'⟩ := lineLoop_next_sle b hnl (b0 :: rest) (((b0 :: rest).length : Int) - 1) hcov (b0 :: rest) 0 bl s s' x
-    (fun z hz => hz) (List.cons_ne_nil _ _) hl' hsle e
+    (fun z hz => hz) (List.cons_ne_nil _ _) hl.1 hsle e
   exact ⟨⟨hst', hk', htop', hgp', hatt'⟩, hsle', hnext⟩
 
-theorem openKeeps (b : Bytes) (hpl : Plain6 b)
-    (hRIo : ∀ bp, Cov6 bp → ∀ p, Keeps (Sh.lb_RIs b) (bpOpen bp p)) : OpenKeeps b := by
+theorem openKeeps (b : Bytes) (hnl : b.getLast? = some 10) (hpl : PlainL b) : OpenKeeps b := by
   intro blank s s' r hau hop hl e
-  obtain ⟨c, hri, _⟩ := hl
+  obtain ⟨c, hri, _⟩ := hl.1
   have hst' : StableL b 0 s' := by
     have hcl : Call s.pc.opened [] := ⟨⟨s.pc.opened, by simp, fun _ bb hb => by rw [hop] at hb; cases hb⟩⟩
     have hkroot : (nd s 0).kind ≠ .list := by rw [hau.st.ls.rootKind]; decide
@@ -65,7 +125,9 @@ theorem openKeeps (b : Bytes) (hpl : Plain6 b)
     refine gp_openBlocks 0 blank s s' r hau.gp hau.k.doc.1 ?_ e
     have : (nd s 0).kind = .document := hau.k.doc.2.1.2
     rw [this]; rfl
-  have hatt' := att_openBlocks0 b hpl hRIo blank s s' r hau.k hop ⟨c, hri⟩ e
+  have hJr : ∀ t t' : St, HL b t → t'.r = t.r → HL b t' := fun t t' h e => h.of_r e
+  have hatt' := att_openBlocks0J hJr (hl_open_go b hnl) (hl_lineOffset b) (hl_peek b) xk_free_cov6 (hl_trig b hpl)
+    blank s s' r hau.k hop hl e
   exact ⟨hst', hk', htop', hgp', fun z hz => (hatt' z hz).1⟩
 
 end GM.Blocks.Xs
